@@ -75,6 +75,7 @@ Inductive op :=
 | OWithoutSuffixSI (a : sarg) (max : N) | OWithoutPrefixSI (a : sarg) (max : N)
 | OWithoutSuffixChI (ch max : N) | OWithoutPrefixChI (ch max : N)
 | OWithWord (idx : N) (a : sarg) (sep : list N)
+| OIndented (n ch : N)
 (* s = <producer>(...) : the result is move-assigned to the subject *)
 | OAssign (o : op).
 
@@ -447,6 +448,20 @@ Definition with_word (s : str1) (idx : N) (w : src) (sep : list N) : str1 :=
               then append_c r2 (CLit sep) else r2 in
     plus_s r3 (src_of after).
 
+(* String::IndentedBy: ret += pad / ret += c, one character at a time *)
+Fixpoint indent_loop (pad : src) (seen : bool) (l : list N) (r : str1) : str1 :=
+  match l with
+  | [] => r
+  | c :: t => if (c =? 10) || (c =? 13) then indent_loop pad false t (append_ch r c)
+              else if seen then indent_loop pad true t (append_ch r c)
+              else indent_loop pad true t (append_ch (append_s r (Some pad)) c)
+  end.
+Definition indented1 (s : str1) (n ch : N) : str1 :=
+  if (n =? 0) || (ch =? 0) then ctor_copy (src_of s)
+  else let pad := padded1 empty1 n false ch in
+       let r0 := if (nthN 0 (abs s) =? 13) || (nthN 0 (abs s) =? 10) then snd (set_from empty1 (Some (src_of pad)) 0 NOLIMIT) else empty1 in
+       indent_loop (src_of pad) false (abs s) r0.
+
 Definition produce (s : str1) (o : op) : option out1 :=
   let me := src_of s in
   let sa (a : sarg) := osrc s (arg_src a) in
@@ -508,6 +523,7 @@ Definition produce (s : str1) (o : op) : option out1 :=
   | OWithoutPrefixChI ch max =>
       Some (R1Str (ctor_sub me (lenN (abs s) - lenN (strip_ch_prefix_nc (abs s) ch max)) NOLIMIT))
   | OWithWord idx a sep => Some (R1Str (with_word s idx (sa a) sep))
+  | OIndented n ch => Some (R1Str (indented1 s n ch))
   | _ => None
   end.
 
@@ -652,6 +668,7 @@ Definition produce0 (l : list N) (o : op) : option out0 :=
   | OWithoutSuffixChI ch max => Some (R0Str (strip_suffix_nc_fuel (S (length l)) l [ch] max))
   | OWithoutPrefixChI ch max => Some (R0Str (strip_ch_prefix_nc l ch max))
   | OWithWord idx a sep => Some (R0Str (l0_with_word l idx (sb a) sep))
+  | OIndented n ch => Some (R0Str (l0_indented l n ch))
   | _ => None
   end.
 
